@@ -203,6 +203,20 @@ def _aggregate(mod, prop, tier, seed, thash, shard_modes, results, proc_events, 
             kt["n"] += st["n"]
             if st["max_err"] is not None and (kt["max_err"] is None or st["max_err"] > kt["max_err"]):
                 kt["max_err"] = st["max_err"]
+    # a known finding is calibrated on the unchanged tree; if it suddenly fires far more often than that, the
+    # violations hiding behind its key are not the known defect any more
+    rate_alarms = []
+    if cases >= 1000:
+        for kid, h in known_hits.items():
+            cap = h["entry"].get("max_per_10k")
+            n_k = max(h["n"], known_key_totals.get(kid, h)["n"])
+            if cap is not None and n_k >= 10 and n_k * 1e4 / cases > cap:
+                rate_alarms.append({"key": {"kind": "known-finding-rate-exceeded", "id": kid}, "err": n_k * 1e4 / cases,
+                                    "idx": -1, "mode": "all",
+                                    "msg": "known finding %s matched %d of %d cases (%.1f per 10k, calibrated ceiling %.1f per 10k): "
+                                           "the mechanism key now covers violations it was not recorded for" % (
+                                               kid, n_k, cases, n_k * 1e4 / cases, cap)})
+    unknown.extend(rate_alarms)
     # minimum observation counts
     min_events = getattr(mod, "MIN_EVENTS", {})
     if callable(min_events):
